@@ -56,11 +56,34 @@ def leg_params(a, b, poly) -> list:
     return sorted(out)
 
 
-def clip(path: list, poly: list) -> list:
-    """maximal parameter intervals [(lo, hi)] (lo < hi) of the path inside the closed polygon"""
+def leg_boxes(path: list):
+    """float bounding boxes of the legs of a path, for `clip(path, poly, boxes)`: computed once per path"""
+    import numpy as np
+    xs = np.array([float(p[0]) for p in path])
+    ys = np.array([float(p[1]) for p in path])
+    return (np.minimum(xs[:-1], xs[1:]), np.maximum(xs[:-1], xs[1:]), np.minimum(ys[:-1], ys[1:]), np.maximum(ys[:-1], ys[1:]))
+
+
+def clip(path: list, poly: list, boxes=None) -> list:
+    """maximal parameter intervals [(lo, hi)] (lo < hi) of the path inside the closed polygon.
+    `boxes` (optional, `leg_boxes(path)`) only speeds the search up: legs whose float bounding box lies clearly (beyond any
+    rounding of the conversion) outside the polygon's are not looked at; they would contribute nothing."""
     intervals = []
-    for k in range(len(path) - 1):
+    # a leg whose bounding box does not meet the polygon's has no point in it (it would contribute nothing below)
+    bx0, bx1 = min(p[0] for p in poly), max(p[0] for p in poly)
+    by0, by1 = min(p[1] for p in poly), max(p[1] for p in poly)
+    if boxes is not None and len(path) > 8:
+        import numpy as np
+        fx0, fx1, fy0, fy1 = float(bx0), float(bx1), float(by0), float(by1)
+        e = 1e-9 * (1.0 + max(abs(fx0), abs(fx1), abs(fy0), abs(fy1)))
+        minx, maxx, miny, maxy = boxes
+        legs = np.nonzero((maxx >= fx0 - e) & (minx <= fx1 + e) & (maxy >= fy0 - e) & (miny <= fy1 + e))[0].tolist()
+    else:
+        legs = range(len(path) - 1)
+    for k in legs:
         a, b = path[k], path[k + 1]
+        if (a[0] < bx0 and b[0] < bx0) or (a[0] > bx1 and b[0] > bx1) or (a[1] < by0 and b[1] < by0) or (a[1] > by1 and b[1] > by1):
+            continue
         ps = leg_params(a, b, poly)
         for s0, s1 in zip(ps, ps[1:]):
             m = (s0 + s1) / 2
@@ -81,6 +104,8 @@ def param_of(p, path) -> F | None:
     """path parameter of a point lying on the path (first leg containing it)"""
     for k in range(len(path) - 1):
         a, b = path[k], path[k + 1]
+        if (p[0] < a[0] and p[0] < b[0]) or (p[0] > a[0] and p[0] > b[0]) or (p[1] < a[1] and p[1] < b[1]) or (p[1] > a[1] and p[1] > b[1]):
+            continue        # outside the leg's bounding box (on_segment would say no after a cross product)
         if on_segment(p, a, b):
             if b[0] != a[0]:
                 s = F(p[0] - a[0]) / (b[0] - a[0])
